@@ -41,7 +41,7 @@ func strFromIndex(idx int64, alphabet []string, n int) string {
 }
 
 func runC11(e *Env) {
-	e.Rule = "(a) totality + (b) reflexivity: ALL strings up to length 5 (quick) / 7 (thorough) over {'/',' ','.','a','b','\\t'} as registered path, group prefix (top level and nested inside another group) and request path (GET and HEAD), both StrictLastSlash settings: GET/Group/Match/ServeHTTP never panic and a static route registered as P is found by a request for the very same P; (c) equivalence on the unambiguous sub-language ws* '/'* core '/'* ws*: sampled pairs (P,Q) incl. group prefixes: route(P) is reached by Q iff N(P)==N(Q), Route.Path()==N(P), strict mode distinguishes '/a' from '/a/'; (d) path source: request targets with %41/%2F/%20 escapes parsed like a server does, routes registered under the decoded and under the escaped spelling + a dynamic route: default router matches URL.Path, UseEncodedPath matches URL.EscapedPath(). Non-trivial: string with white space or repeated/trailing slashes or an escape; distinct by string (pair). Non-ASCII white space is part of the alphabet; for strings outside the documented sub-language the two entry points must still agree (Match reaches the route iff ServeHTTP does, also for the stored path itself)."
+	e.Rule = "(a) totality + (b) reflexivity: ALL strings up to length 5 (quick) / 7 (thorough) over {'/',' ','.','a','b','\\t'} as registered path, group prefix (top level and nested inside another group) and request path (GET and HEAD), both StrictLastSlash settings: GET/Group/Match/ServeHTTP never panic and a static route registered as P is found by a request for the very same P; (c) equivalence on the unambiguous sub-language ws* '/'* core '/'* ws*: sampled pairs (P,Q) incl. group prefixes: route(P) is reached by Q iff N(P)==N(Q), Route.Path()==N(P), strict mode distinguishes '/a' from '/a/'; (d) path source: request targets with %41/%2F/%20 escapes parsed like a server does, routes registered under the decoded and under the escaped spelling + a dynamic route: default router matches URL.Path, UseEncodedPath matches URL.EscapedPath(). Non-trivial: string with white space or repeated/trailing slashes or an escape; distinct by string (pair). Non-ASCII white space is part of the alphabet; a Controller registered under a prefix yields the same route path as a Group under that prefix (both strict settings); for strings outside the documented sub-language the two entry points must still agree (Match reaches the route iff ServeHTTP does, also for the stored path itself)."
 	e.Assumptions = []string{
 		"strings where white space touches the stripped slashes (e.g. 'a /') are only checked for totality and reflexivity: the documented rule does not fix their normal form",
 		"only ASCII white space is generated",
@@ -112,6 +112,23 @@ func runC11(e *Env) {
 				}
 				t.Count("group_prefix.checked", 1)
 			}
+			// a Controller is a group that registers its routes itself: the same prefix, the same route path
+			// (both strict settings: whatever the normal form of P is, the two registration APIs agree on it)
+			r5 := rux.New(c11Opts(strict, false)...)
+			ctl := &c11Ctrl{}
+			if pv, panicked := catch(func() { r5.Controller(P, ctl) }); panicked {
+				t.Fail("group-panics", "Controller(%q, ...) (strict=%v) panicked: %v", P, strict, pv)
+				return
+			}
+			if ctl.route == nil || ctl.route.Path() != inner.Path() {
+				got := "<no route>"
+				if ctl.route != nil {
+					got = ctl.route.Path()
+				}
+				t.Fail("controller-prefix-differs-from-group-prefix", "strict=%v: Group(%q){GET(\"/x\")} registers %q, Controller(%q){GET(\"/x\")} registers %q", strict, P, inner.Path(), P, got)
+				return
+			}
+			t.Count("group_prefix.controller_agrees", 1)
 			// as the prefix of a NESTED group: every level is normalised on its own
 			r4 := rux.New(c11Opts(strict, false)...)
 			var inner2 *rux.Route
@@ -410,3 +427,9 @@ func runC11(e *Env) {
 	e.Require("pathsource.spellings_differ", 1000)
 	e.Require("pathsource.dynamic_checked", 100)
 }
+
+
+// c11Ctrl registers GET "/x" like the group body of the prefix checks does.
+type c11Ctrl struct{ route *rux.Route }
+
+func (c *c11Ctrl) AddRoutes(g *rux.Router) { c.route = g.GET("/x", namedHandler("x")) }
